@@ -1,0 +1,52 @@
+//go:build verif
+
+// Contract for Topic.messagePump, the distribution loop of topic.go (C03, C01), checked by nsqvc.
+// Comment-only file.
+
+package nsqd
+
+// lTPauseFor / lTPauseObs : topic and answer of the most recent Topic.IsPaused (set by its contract).
+// lHand*                  : the most recent hand-off to a channel (Channel.PutMessage / PutMessageDeferred,
+//                           set by their contracts): channel, message, which of the two, the delay; lHandCalls counts.
+//@ ghost lTPauseFor *Topic
+//@ ghost lTPauseObs bool
+//@ ghost lHandCalls int
+//@ ghost lHandChan *Channel
+//@ ghost lHandMsg *Message
+//@ ghost lHandDeferred bool
+//@ ghost lHandDelay int
+
+//@ pred lChansOK(chans []*Channel, n int) := forall k int :: {chans[k]} 0 <= k && k < n ==> flowChan(chans[k])
+// the copy handed to a channel carries the same id, body, timestamp and deferral as the received message
+//@ pred lSameMsg(a *Message, b *Message) := a != nil && (forall j int :: {a.ID[j]} 0 <= j && j < 16 ==> a.ID[j] == b.ID[j]) && a.Body == b.Body && a.Timestamp == b.Timestamp && a.deferred == b.deferred
+// the two sources are open only after a pause check of THIS topic that answered "not paused", with at least one channel
+//@ pred lSourcesGuarded(t *Topic, n int, open bool) := open ==> n > 0 && lTPauseFor == t && !lTPauseObs
+
+//@ func (t *Topic) messagePump()
+//@   props C03 C01
+//@   requires flowTopic(t)
+//@   inst NewMessage.gm msg
+//@   modifies Channel.messageCount, Channel.deferredMessages, Channel.deferredPQ, mapstore(map[MessageID]*pqueue.Item), elems(*pqueue.Item), pqueue.Item.Index,
+//@        t.channelMap, mapstore(map[string]*Channel), elems(*Channel), elems(byte), Message.Timestamp, Message.deferred,
+//@        deferredPushes, deferredPushOK, lastDeferredMsg, lastNow, backendWrites, lastWriteMsg, lastWriteQueue, lastWriteErr, healthSets, lastHealthErr, lastHealthNSQD,
+//@        chanPuts, chanPutOK, lastChanPutMsg, lTPauseFor, lTPauseObs, lHandCalls, lHandChan, lHandMsg, lHandDeferred, lHandDelay
+//@   loop 0
+//@     invariant[nothing-before-start] len(chans) == 0 && memoryMsgChan == nil && backendChan == nil
+//@   loop 1
+//@     invariant[chans-ok] lChansOK(chans, len(chans))
+//@     invariant[nothing-before-start] memoryMsgChan == nil && backendChan == nil
+//@   loop 2
+//@     invariant[chans-ok] lChansOK(chans, len(chans))
+//@     invariant[pause-guard] lSourcesGuarded(t, len(chans), memoryMsgChan != nil || backendChan != nil)
+//@   loop 3
+//@     invariant[chans-ok] lChansOK(chans, len(chans))
+//@   loop 4
+//@     assume msg != nil
+//@     invariant[chans-ok] lChansOK(chans, len(chans))
+//@     invariant[pause-guard] lSourcesGuarded(t, len(chans), memoryMsgChan != nil || backendChan != nil)
+//@     invariant[each-channel-served] rangeindex >= 0 ==> lHandChan == chans[rangeindex]
+//@     invariant[same-id] rangeindex >= 0 ==> lHandMsg != nil && (forall j int :: {lHandMsg.ID[j]} 0 <= j && j < 16 ==> lHandMsg.ID[j] == msg.ID[j])
+//@     invariant[same-content] rangeindex >= 0 ==> lHandMsg.Body == msg.Body && lHandMsg.Timestamp == msg.Timestamp && lHandMsg.deferred == msg.deferred
+//@     invariant[deferred-iff-delay] rangeindex >= 0 ==> lHandDeferred == (msg.deferred != 0) && (lHandDeferred ==> lHandDelay == msg.deferred)
+//@     invariant[first-gets-the-object] rangeindex == 0 ==> lHandMsg == msg
+//@     invariant[others-get-a-copy] rangeindex > 0 ==> lHandMsg != msg
